@@ -60,10 +60,7 @@ func ReLU(X tensor.Tensor) (tensor.Tensor, error) {
 		return nil, err
 	}
 
-	comparison, err := tensor.Gt(X, typedZero, tensor.AsSameType())
-	if err != nil {
-		return nil, err
-	}
-
-	return tensor.Mul(X, comparison)
+	// ReLU is max(x, 0). It can not be computed as x * (x > 0): by IEEE-754 the product
+	// -Inf * 0 is NaN, where ReLU(-Inf) has to be 0.
+	return tensor.MaxBetween(X, typedZero)
 }
